@@ -7,9 +7,14 @@ STAGES = [
     Stage("lu-asan", "p16_sparselu", "asan", {"quick": 3000, "thorough": 20000}, offset=10000000),
 ]
 THRESHOLDS = {
-    # max over rows i and right-hand sides of |b_i - sum_j A_ij x_j| / ((|L||U||x|)_i + |b_i|), L and U from a dense
-    # long-double LU without pivoting of the same matrix.  Backward error analysis of LU without pivoting bounds it by
-    # ~3 n u (n <= 420: 1.4e-13); the scale is invariant under row scaling and already contains the growth.
+    # max over rows i and right-hand sides of
+    #     |b_i - sum_j A_ij x_j| / ((|L||U||x|)_i + |b_i| + u (|L||U|e)_i max_j|x_j|),      u = 2^-53,
+    # L and U from a dense long-double LU without pivoting of the same matrix.  Backward error analysis of LU without
+    # pivoting bounds the first-order part by ~3 n u (n <= 480: 1.6e-13); the scale is invariant under row scaling and
+    # already contains the growth, so no growth fudge factor is needed.  The u-term is a floor for rows whose
+    # first-order scale vanishes (exact cancellations in the exact factors, e.g. dyadic matrices with unit right-hand
+    # sides): there the residual is an O(u^2) quantity (seen: 1e-31 against a scale of 1e-31; 1e-33 normwise).
+    # Observed on the unchanged tree: <= 8.1e-15 (n ~ 400, thorough), typically 1e-16; breaks give 1e-7 .. 1.
     "residual_rowwise": 1e-11,
     "repeat_solve_identical": 0.5,   # boolean: first right-hand side solved again after the others, bit-identical x
     "solve_returns": 0.5,            # boolean: the process survived factorisation and all solves (no library exit())
@@ -38,7 +43,7 @@ TECHNIQUE = ("runtime monitor: generated and library-assembled sparse systems so
              "long-double LU reference; ASan/UBSan replay")
 LEVEL_TEXT = ("sampled executions judged by an oracle: thousands (quick) to >1e5 (thorough) generated matrices of ten "
               "structural classes incl. matrices assembled by the real solvers, every row of every solve compared with "
-              "the row-wise backward-error bound of LU without pivoting (threshold 1e-11, observed <= 1e-14); process "
+              "the row-wise backward-error bound of LU without pivoting (threshold 1e-11, observed < 1e-14); process "
               "exit, repeat solves and container read-back observed; part of the cases under ASan/UBSan")
 LEVEL_NOTE = ("trusts the long-double dense reference; covers only generated inputs (n <= ~480, row-wise growth <= 1e4, no "
               "duplicate entries); residual errors below 1e-11 of the row scale are invisible")
